@@ -11,7 +11,7 @@
 """
 import sys, os, json, subprocess, shutil, tempfile, re
 V = os.path.dirname(os.path.dirname(os.path.abspath(__file__)))
-S = os.path.join(V, 'seeded')
+S = os.environ.get('SEEDED_DIR') or os.path.join(V, 'seeded')
 
 
 def sh(cmd, cwd=None, timeout=3000, env=None):
@@ -34,8 +34,9 @@ def drop(d):
 
 def cmd_import(src, sid):
     d = os.path.join(S, sid); os.makedirs(d, exist_ok=True)
-    for f in ('patch.diff', 'demo.py', 'meta.json'):
-        shutil.copy(os.path.join(src, f), os.path.join(d, f))
+    for f in ('patch.diff', 'demo.py', 'equiv.py', 'meta.json'):
+        if os.path.exists(os.path.join(src, f)):
+            shutil.copy(os.path.join(src, f), os.path.join(d, f))
     print('imported', sid)
 
 
@@ -63,7 +64,7 @@ def cmd_run(sid, in_repo=False, tier='quick', props=None, seeds=('0',)):
     """results per check and per VERIF_SEED; the first replay file a VIOLATION line cites is copied to seeded/<id>/replay_<check>.json"""
     d = os.path.join(S, sid)
     meta = json.load(open(os.path.join(d, 'meta.json')))
-    props = props or [meta['property']]
+    props = props or ([meta['property']] if 'property' in meta else list(meta['properties']))
     results = {}
 
     def one(p, env):
